@@ -224,7 +224,12 @@ fn build(pr: &Params) -> Case {
     let maxoff = off.as_ref().map(|o| o.iter().fold(0.0f64, |m, v| m.max(v.abs()))).unwrap_or(0.0);
     let lin: Vec<f64> = (0..n).map(|i| (1..p).map(|j| x[i * p + j] * beta[j]).sum::<f64>()).collect();
     let maxlin = lin.iter().fold(0.0f64, |m, v| m.max(v.abs()));
-    let room = 3.0 - b0.abs() - maxoff;
+    // Log-link families with a variance function mu^2 (Gamma, Exponential) are scale-free: a fitted mean of 1e-5 is as
+    // legitimate as one of 10, and |β| ≤ 1.5 with six columns reaches linear predictors near −10. A quarter of those
+    // problems therefore let the linear predictor range over [−10, 10] (negative intercept), so that thresholds on mu or V(mu) are crossed.
+    let wide = fam >= 4 && pr.seed % 4 == 0;
+    let b0 = if wide { -b0.abs() } else { b0 };
+    let room = if wide { 10.0 - b0.abs() - maxoff } else { 3.0 - b0.abs() - maxoff };
     let s = if maxlin > room { room / maxlin } else { 1.0 };
     let aux = rng.below(12) as u8;
     let y: Vec<f64> = (0..n)
